@@ -25,7 +25,7 @@ theorem write_core {s s' : State} (hi : Inv s) {b k c : Bytes} {t ds : Tree} {p 
 
 /-- `copy_object` may be compared with the store (a copy of an object onto itself included): names agree and side-file
     names fit; for admissible names the source is not a leftover directory (a missing source bucket is inside since
-    391a940: `NoSuchBucket` on both sides; before: fs:missing-bucket-reported-as-missing-key); when the copy can happen the destination path is free, the destination has no metadata
+    cc244fc: `NoSuchBucket` on both sides; before: fs:missing-bucket-reported-as-missing-key); when the copy can happen the destination path is free, the destination has no metadata
     file the source lacks [fs:stale-metadata-after-copy] and both have the same recorded checksums
     [fs:stale-checksum-after-copy] -/
 def CopyOk (s : State) (sb sk db dk : Bytes) : Prop :=
